@@ -133,6 +133,7 @@ type Call struct {
 	RawFh   []byte `json:"-"`
 	RawFh2  []byte `json:"-"`
 	PanicV  string `json:"panic"`
+	Wedge   string `json:"wedge"`  // TIMEOUT: what the blocked goroutines wait in
 	Txns    int    `json:"txns"`   // transactions begun during the call
 	Leaked  []int  `json:"leaked"` // inode locks still held after a sequential call returned
 }
